@@ -303,15 +303,31 @@ def run_impl(t, strict):
     from metapype.model.node import Node
     Node.store.clear()
     root = NL.build(t, attach=False)
+    return observe(root, strict, clear=True)
+
+
+def observe(root, strict, clear=True):
+    """prune the live tree `root` and record everything the statement talks about"""
+    from metapype.eml import validate
+    from metapype.eml.exceptions import MetapypeRuleError
+    from metapype.model.node import Node
     store_before = sorted(Node.store.keys())
     out = {"store_before": store_before}
     try:
-        pruned = validate.prune(root, strict)
+        # every way the optional parameter can be passed: omitted (lenient), positional, keyword
+        form = len(store_before) % 3
+        if not strict and form == 0:
+            pruned = validate.prune(root)
+        elif form == 1:
+            pruned = validate.prune(root, strict=strict)
+        else:
+            pruned = validate.prune(root, strict)
     except Exception as e:  # noqa
         out["exc"] = type(e).__name__ + ": " + str(e)[:200]
         out["after"] = NL.snapshot(root)
         out["store_after"] = sorted(Node.store.keys())
-        Node.store.clear()
+        if clear:
+            Node.store.clear()
         return out
     out["exc"] = None
     out["after"] = NL.snapshot(root)
@@ -363,8 +379,86 @@ def run_impl(t, strict):
         out["second"] = "EXC " + type(e).__name__
     out["after2"] = NL.snapshot(root)
     out["store_after2"] = sorted(Node.store.keys())
-    Node.store.clear()
+    if clear:
+        Node.store.clear()
     return out
+
+
+# ------------------------------------------------------------------ history sensitivity
+# Assumption of every theorem: prune is a function of the tree (and the mode) it is given.  This
+# phase tests it: prune / edit in place / prune again on the SAME node objects, each call judged by
+# the statement and compared with the same call on a freshly built identical tree.
+def choose_edits15(rng, tb, gen, snap):
+    from harness.c16 import hid_tree
+    nodes = [(n, p) for n, p, m in walk(snap) if not m]
+    edits, tags = [], []
+    for _ in range(rng.randint(1, 3)):
+        n, p = rng.choice(nodes)
+        r = rng.random()
+        if r < 0.3:
+            edits.append({"op": "add", "id": n["id"], "index": rng.randint(0, len(n["kids"])),
+                          "subtree": hid_tree(node(rng.choice(UNKNOWN_NAMES), None, [], [node("title", "t")] if rng.random() < 0.3 else []))})
+            tags.append("add-unknown")
+        elif r < 0.55 and n["name"] in tb.node_map:
+            al = tb.allowed(n["name"])
+            nm = rng.choice(tb.known)
+            for _try in range(20):
+                if nm not in al:
+                    break
+                nm = rng.choice(tb.known)
+            edits.append({"op": "add", "id": n["id"], "index": rng.randint(0, len(n["kids"])), "subtree": hid_tree(gen.tree(nm, 1, False))})
+            tags.append("add-misplaced")
+        elif r < 0.7:
+            edits.append({"op": "set_attr", "id": n["id"], "k": "zzAttr", "v": "1"})
+            tags.append("bad-attribute")
+        elif r < 0.85:
+            edits.append({"op": "set_content", "id": n["id"], "content": None if n["content"] is not None else "unexpected"})
+            tags.append("bad-content")
+        elif p is not None:
+            edits.append({"op": "remove", "id": n["id"]})
+            tags.append("remove-node")
+            nodes = [(x, q) for x, q in nodes if x["id"] not in set(ids_of(n))]
+            if not nodes:
+                break
+    return "+".join(tags), edits
+
+
+def run_history15(tb, gen, t, strict, rng=None, steps_edits=None, max_steps=3):
+    from harness.c16 import apply_edit
+    from metapype.model.node import Node
+    Node.store.clear()
+    root = NL.build(t, attach=False)
+    v, log = [], []
+    for step in range(max_steps):
+        snap = NL.snapshot(root)
+        if snap["name"] not in tb.node_map:
+            break
+        o = observe(root, strict, clear=False)
+        live_after = NL.snapshot(root)
+        for key, what in statement_violations(tb, snap, strict, o):
+            v.append(("history:" + key, f"call {step + 1} on the same tree objects: " + what, step))
+        saved = dict(Node.store)
+        of = run_impl(snap, strict)
+        Node.store.clear()
+        Node.store.update(saved)
+        diff = [k for k in ("exc", "after", "returned", "store_after") if o.get(k) != of.get(k)]
+        log.append({"step": step, "returned": o.get("returned"), "exc": o.get("exc"), "differs_from_fresh_tree_in": diff})
+        if diff:
+            v.append(("history:differs-from-fresh-tree", f"call {step + 1} on the same tree objects differs from the same call on a freshly built "
+                      f"identical tree in {diff}: {o.get('returned') if 'returned' in diff else ''} vs {of.get('returned') if 'returned' in diff else ''}", step))
+        if v or step == max_steps - 1:
+            break
+        if steps_edits is not None:
+            if step >= len(steps_edits):
+                break
+            tag, edits = steps_edits[step]
+        else:
+            tag, edits = choose_edits15(rng, tb, gen, live_after)
+        for e in edits:
+            apply_edit(root, e)
+        log[-1]["then"] = [tag, edits]
+    Node.store.clear()
+    return v, log
 
 
 # ------------------------------------------------------------------ (S) the statement, in plain Python
@@ -581,6 +675,22 @@ def run(ctx):
             if removed_any:
                 ctx.sample({"base": kind, "planted": tags, "strict": strict, "nodes": n,
                             "returned": o.get("returned"), "exc": o["exc"]}, limit=8)
+    # history sensitivity: prune / edit in place / prune again on the same objects
+    gen_h = Gen(ctx.rng, tb)
+    hist = [m for m in meta]
+    ctx.rng.shuffle(hist)
+    for m in hist[: (500 if ctx.tier == "thorough" else 100)]:
+        v, log = run_history15(tb, gen_h, m["tree"], m["strict"], rng=ctx.rng)
+        ctx.case(("history", json.dumps(m["tree"], sort_keys=True), m["strict"]), len(log) > 1)
+        ctx.count("history-calls", len(log))
+        for entry in log:
+            if "then" in entry:
+                for tg in entry["then"][0].split("+"):
+                    ctx.count("history-edit=" + tg)
+        for key, what, step in v:
+            ctx.fail(f"C15:{key}:{'strict' if m['strict'] else 'lenient'}", what,
+                     {"kind": "impl-vs-statement", "history": True, "tree": m["tree"], "strict": m["strict"], "failing_call": step + 1,
+                      "edits": [e.get("then") for e in log if "then" in e], "log": log})
     # (B) correspondence
     bad, errors = RL.coq_compare(ctx, "corr", "run_pcase tb", cterms, wterms, shard=120, header=HEADER, eqb="pobs_eqb")
     ctx.extra["traces_validated_against_impl"] = len(cterms) - len(bad) - (120 * len(errors))
@@ -605,6 +715,15 @@ def replay(ctx, data):
         print(json.dumps(data, indent=1)[:2000])
         return
     tb = Tables()
+    if case.get("history"):
+        v, log = run_history15(tb, Gen(ctx.rng, tb), t, bool(strict), steps_edits=case.get("edits", []), max_steps=len(case.get("edits", [])) + 1)
+        ctx.case("replay-history", True)
+        print("calls:", json.dumps([{k: e[k] for k in ("step", "returned", "exc", "differs_from_fresh_tree_in")} for e in log])[:1500])
+        for key, what, step in v:
+            print("statement violated:", key, what)
+            ctx.fail(f"C15:{key}:{'strict' if strict else 'lenient'}", what,
+                     {"kind": "impl-vs-statement", "history": True, "tree": t, "strict": strict, "edits": case.get("edits"), "log": log})
+        return
     o = run_impl(t, bool(strict))
     ctx.case(("replay", strict), True)
     print("observed:", json.dumps({k: o.get(k) for k in ("exc", "returned", "store_after", "second", "invalid_left")})[:1500])
